@@ -364,6 +364,8 @@ def _static_cg(
     }
     # Finish early if already converged in the initial iteration
     val["info"] = jnp.where(gamma == 0.0, 0, val["info"])
+    # Do not iterate at all if no iteration is allowed
+    val["info"] = jnp.where((val["info"] < -1) & (maxiter <= 0), 1, val["info"])
 
     if name is not None:
         if resnorm is not None:
